@@ -25,23 +25,23 @@ structure Sess where
   scap  : Nat := 0               -- spec side: the capacity (push reports CC_ERR_MAX_CAPACITY at the limit)
   mem   : Mem := {}
   exp   : Float32 := 2
-  modc  : Bool := false          -- comparator: false = numeric, true = v % 10
+  modc  : Nat := 0               -- comparator: 0 = numeric, 1 = v % 10, 2 = clamped 64-bit difference
   sparse : Bool := false         -- obs=sparse: the content sweep is printed by `observe` only
 
-def keyOf (modc : Bool) (v : Nat) : Nat := if modc then v % 10 else v
+def keyOf (modc : Nat) (v : Nat) : Nat := if modc == 1 then v % 10 else v
 /-- the harness comparators (deliberately not -1/0/1) -/
-def cmpOf (modc : Bool) : Nat → Nat → Int := Spec.keyCmp (keyOf modc)
+def cmpOf (modc : Nat) : Nat → Nat → Int := if modc == 2 then Spec.diffCmp else Spec.keyCmp (keyOf modc)
 
 def insDesc (x : Nat) : List Nat → List Nat
   | [] => [x]
   | y :: ys => if x ≥ y then x :: y :: ys else y :: insDesc x ys
 def sortDesc (xs : List Nat) : List Nat := xs.foldr insDesc []
 
-def obsM (modc : Bool) (r : Option PQueue) : String :=
+def obsM (modc : Nat) (r : Option PQueue) : String :=
   match r with
   | none => "abs=[]"
   | some r => s!"abs={fmtList ((PQueue.drain (cmpOf modc) r.size r).map (keyOf modc))}"
-def obsS (modc : Bool) (f : Option (List Nat)) : String :=
+def obsS (modc : Nat) (f : Option (List Nat)) : String :=
   match f with
   | none => "abs=[]"
   | some f => s!"abs={fmtList ((Spec.PQ.drainFirst (cmpOf modc) f.length f).map (keyOf modc))}"
@@ -49,7 +49,7 @@ def phys (r : Option PQueue) (out : Option Nat) : String :=
   match r with
   | none => "-"
   | some r => s!"size={r.size} cap={r.capacity} buf={fmtList r.abs}" ++ (match out with | some v => s!" out={v}" | none => "")
-def inv (modc : Bool) (r : Option PQueue) : Bool :=
+def inv (modc : Nat) (r : Option PQueue) : Bool :=
   match r with | none => true | some r => decide (r.Inv (cmpOf modc))
 
 def lineS' (full : Bool) (hd : String) (s : Sess) : String :=
@@ -59,7 +59,7 @@ def lineM' (full : Bool) (hd : String) (s : Sess) (out : Option Nat) : String :=
 def lineS (hd : String) (s : Sess) : String := lineS' (!s.sparse) hd s
 def lineM (hd : String) (s : Sess) (out : Option Nat) : String := lineM' (!s.sparse) hd s out
 
-def hdOut (modc : Bool) (st : Stat) (o : Option Nat) (quiet : Bool) : String :=
+def hdOut (modc : Nat) (st : Stat) (o : Option Nat) (quiet : Bool) : String :=
   match o with
   | some v => if quiet || st != .ok then fmtStat st else s!"{fmtStat st} outk={keyOf modc v}"
   | none => fmtStat st
@@ -71,7 +71,7 @@ def step (s : Sess) (c : Cmd) : Sess × String × String :=
     let dflt := c.op == "new_default"
     let cap := if dflt then Gen.PQUEUE_DEFAULT_CAPACITY else c.nat "cap" Gen.PQUEUE_DEFAULT_CAPACITY
     let f := if dflt then defaultFactor else effFactor (match c.str "exp" with | some t => parseF32 t | none => defaultFactor)
-    let modc := (c.str "cmp").getD "num" == "mod"
+    let modc : Nat := match (c.str "cmp").getD "num" with | "mod" => 1 | "diff" => 2 | _ => 0
     let sparse := (c.str "obs").getD "full" == "sparse"
     let invalid := cap = 0 || exGeF f (Gen.CC_MAX_ELEMENTS / cap) || cap > Gen.CC_MAX_ELEMENTS / PQueue.ptrSize
     let (sst, sp) : Stat × Option (List Nat) :=
